@@ -1704,6 +1704,8 @@ class Evaluator:
                     return Comp(el_[0], [(b_, f_ + [s.truth(el_[1])])], 'list')
                 return NotImplemented
             if leaf == 'count' and not args and not kw: return Opq('count')
+            if leaf == 'combinations' and len(args) == 2 and not kw and isinstance(args[1], Poly) and args[1].real_const() == 2 and not isinstance(args[0], (list, tuple)):
+                return Opq('combinations', _iter_view(args[0]))          # unordered pairs of items at different positions, each once
             if leaf == 'permutations' and len(args) == 2 and not kw and isinstance(args[1], Poly) and args[1].real_const() == 2 and not isinstance(args[0], (list, tuple)):
                 return Opq('permutations', _iter_view(args[0]))          # ordered pairs of items at DIFFERENT positions
             if leaf == 'chain' and args and not kw and all(isinstance(a_, (list, Comp)) or (isinstance(a_, Opq) and a_.k and a_.k[0] in ('sorted', 'list', 'concat')) for a_ in args):
@@ -3601,7 +3603,7 @@ def _product_args(it):
     """iterables of an itertools.product(...) term (repeat= expanded), else None; permutations(xs, 2) binds like product(xs, xs) (its pairs
     are those at different positions -- whoever needs that reads the generator term)"""
     if isinstance(it, Opq) and it.k and it.k[0] == 'product': return list(it.k[1:])
-    if isinstance(it, Opq) and len(it.k) == 2 and it.k[0] == 'permutations': return [it.k[1], it.k[1]]
+    if isinstance(it, Opq) and len(it.k) == 2 and it.k[0] in ('permutations', 'combinations'): return [it.k[1], it.k[1]]
     return None
 
 
